@@ -15,7 +15,7 @@ def main():
     checks = []
     for pid in ids:
         spec = props.PROPS.get(pid)
-        if not spec:
+        if not spec or not spec.get("ready"):
             continue
         checks.append({
             "property_id": pid,
@@ -31,7 +31,7 @@ def main():
         })
     na = []
     for pid in ids:
-        if pid in props.PROPS:
+        if pid in props.PROPS and props.PROPS[pid].get("ready"):
             continue
         na.append({"property_id": pid, "reason": natable.NA.get(pid, "check not built yet (machinery under construction); see DESIGN.md")})
     m = {
@@ -45,9 +45,9 @@ def main():
             "add_only": True,
         },
         "engines": [
-            {"name": "kani-incrate", "path": "/verif/harness/incrate", "serves_properties": sorted(p for p in props.PROPS),
+            {"name": "kani-incrate", "path": "/verif/harness/incrate", "serves_properties": sorted(p for p, s in props.PROPS.items() if s.get("ready")),
              "kind_free_text": "Kani 0.68 / CBMC 6.11 proof harnesses compiled as part of the dust_dds crate through one guarded include! hook; driver ./check (vlib/kani.py)"},
-            {"name": "mir-smt", "path": "/verif/mirsmt", "serves_properties": sorted(p for p, s in props.PROPS.items() if s.get("smt")),
+            {"name": "mir-smt", "path": "/verif/mirsmt", "serves_properties": sorted(p for p, s in props.PROPS.items() if s.get("smt") and s.get("ready")),
              "kind_free_text": "rustc nightly MIR dump of /repo -> SMT-LIB (bit-vector and integer encodings) -> cvc5 + z3; counterexamples replayed on the natively compiled code (/verif/native)"},
         ],
         "checks": checks,
